@@ -61,7 +61,7 @@ func runC15(c *core.Ctx) core.Meta {
 		if m == "Remove" {
 			cc := core.CallOf(in)
 			pv := prov.Of(cc.Args[len(cc.Args)-1])
-			ok := regexp.MustCompile(`^recv\.transactions\.Front\(\)$`).MatchString(pv)
+			ok := core.ProvMatch(regexp.MustCompile(`^recv\.transactions\.Front\(\)$`), pv)
 			st.Ob(ok)
 			st.Sample("%s: transactions.Remove(%s)", core.FuncName(fn), pv)
 			if !ok {
@@ -120,7 +120,7 @@ func runC15(c *core.Ctx) core.Meta {
 		st.Instances++
 		addr := prov.Of(s.Addr.(*ssa.FieldAddr).X)
 		val := prov.Of(s.Val)
-		ok2 := regexp.MustCompile(`^recv\.toBottomReqIDToTransactionTable\[recv\.bottomPort\.PeekIncoming\(\)\.(GetRspTo\(\)|RespondTo)\]\.Value$`).MatchString(addr) &&
+		ok2 := core.ProvMatch(regexp.MustCompile(`^recv\.toBottomReqIDToTransactionTable\[recv\.bottomPort\.PeekIncoming\(\)\.(GetRspTo\(\)|RespondTo)\]\.Value$`), addr) &&
 			val == "recv.bottomPort.PeekIncoming()"
 		st.Ob(ok2)
 		st.Sample("%s: (%s).rspFromBottom = %s", core.FuncName(fn), addr, val)
@@ -437,7 +437,7 @@ func checkMetaStores(c *core.Ctx, p *PkgInfo, prov *core.Prov, rule, port string
 				found[f.Name()] = true
 				st.Instances++
 				pv := prov.Of(s.Val)
-				ok2 := regexp.MustCompile(re).MatchString(pv)
+				ok2 := core.ProvMatch(regexp.MustCompile(re), pv)
 				st.Ob(ok2)
 				st.Sample("%s: msg.Meta().%s = %s", core.FuncName(fn), f.Name(), pv)
 				if !ok2 {
